@@ -258,4 +258,274 @@ Proof.
   - exists []. rewrite app_nil_r. exact Q3.
 Qed.
 
+(* ---------- what gets into the queue is well-formed ---------- *)
+
+Notation trace := (@trace cfg sv stack verify p).
+
+(* API goroutines enqueue registrations and unregistrations only *)
+Definition api_ev_ok (ev : cb_event) : Prop := match ev with EvNew _ _ _ _ => False | _ => True end.
+Definition thr_ok (thr : list (N * thread cfg sv)) : Prop :=
+  forall tid t ev, lookup tid thr = Some t -> t_pc t = PEnqueue ev -> api_ev_ok ev.
+
+Lemma thr_ok_update : forall thr tid t,
+  thr_ok thr -> (forall ev, t_pc t = PEnqueue ev -> api_ev_ok ev) -> thr_ok (update tid t thr).
+Proof.
+  intros thr tid t H Ht tid0 t0 ev Hl Hpc. rewrite lookup_update in Hl.
+  destruct (tid0 =? tid); [inversion Hl; subst; eauto|eauto].
+Qed.
+
+Lemma step_thr_ok : forall s l s', thr_ok (s_thr s) -> step s l = Some s' -> thr_ok (s_thr s').
+Proof.
+  intros s l s' I H. destruct l; cbn [System.step] in H.
+  - unfold System.api_start in H. destruct (lookup tid (s_thr s)); [discriminate|].
+    destruct op; unfold start_enqueue in H; inv_step H; cbn; try exact I;
+      apply thr_ok_update; auto; cbn; intros ev Hev; try discriminate; inversion Hev; exact I0 || (subst; exact Logic.I).
+  - unfold System.api_act in H. inv_step H; cbn; apply thr_ok_update; auto; cbn; intros; discriminate.
+  - unfold System.mon_recv_step in H. inv_step H;
+    match goal with |- thr_ok (s_thr (mon_take _ _ _ ?s1 ?st ?i)) =>
+      destruct (mon_take_fields stack verify p s1 st i) as [_ [_ [_ [_ [_ [Ft _]]]]]]; rewrite Ft end;
+    cbn; try exact I; apply thr_ok_update; auto; cbn; intros; discriminate.
+  - unfold System.mon_act_step in H. inv_step H; exact I.
+  - unfold System.cb_take_step in H. inv_step H; exact I.
+  - unfold cb_return_step in H. inv_step H. exact I.
+  - unfold cb_ack_step in H. inv_step H. exact I.
+  - destruct (s_main s); [discriminate|]. inversion H. exact I.
+  - unfold cancel_call in H. inv_step H; cbn; apply thr_ok_update; auto; cbn; intros ev' Hev; try discriminate;
+      eapply I; eauto; congruence.
+Qed.
+
+Notation recvs := (@recvs cfg sv).
+
+Definition nosub (es : list gevent) : Prop := enq_of es = [] /\ submits_of (mon_hist es) = [].
+
+Lemma nosub_app : forall a b, nosub a -> nosub b -> nosub (a ++ b).
+Proof.
+  intros a b [A1 A2] [B1 B2]. unfold nosub.
+  rewrite enq_of_app, mon_hist_app, submits_of_app, A1, A2, B1, B2. auto.
+Qed.
+Lemma nosub_verifs : forall vl : list (cfg * bool), nosub (map (fun cb => GVerify (fst cb) (snd cb)) vl).
+Proof. induction vl as [|x r [A B]]; [split; reflexivity|]. split; cbn; auto. Qed.
+Lemma nosub_splitv : forall acts : list mon_act, nosub (fst (@split_verifies cfg sv acts)).
+Proof.
+  induction acts as [|a r IH]; [split; reflexivity|].
+  destruct a; try (split; reflexivity).
+  cbn [System.split_verifies]. destruct (split_verifies r) as [g r'] eqn:E. cbn [fst] in *.
+  destruct IH as [A B]. split; cbn; auto.
+Qed.
+Lemma nosub_enter : forall (x : gevent) (o : list cb_out), nosub [x] -> nosub (x :: cb_enter o).
+Proof.
+  intros x o Hx. change (x :: cb_enter o) with ([x] ++ cb_enter o). apply nosub_app; [exact Hx|].
+  destruct o as [|[]]; split; reflexivity.
+Qed.
+
+Ltac solve_nosub :=
+  repeat match goal with
+  | |- nosub [] => split; reflexivity
+  | |- nosub (fst (split_verifies _)) => apply nosub_splitv
+  | |- nosub (map _ _) => apply nosub_verifs
+  | |- nosub (?x :: cb_enter ?o) => apply nosub_enter; split; reflexivity
+  | |- nosub (?a :: ?l) => change (a :: l) with ([a] ++ l); apply nosub_app; [split; reflexivity|]
+  | |- nosub (?a ++ ?l) => apply nosub_app
+  end.
+
+(* what a step appends to the history, as far as the queue is concerned *)
+Lemma step_es : forall s l s', step s l = Some s' ->
+  exists es, s_log s' = s_log s ++ es /\
+  ( nosub es
+    \/ (exists tid t ev, lookup tid (s_thr s) = Some t /\ t_pc t = PEnqueue ev /\
+                          enq_of es = [ev] /\ submits_of (mon_hist es) = [])
+    \/ (exists st ev rest_p (d : bool), s_mon s = MRun st (ATrySubmit ev :: rest_p) /\
+                          mon_hist es = [ATrySubmit ev] /\ enq_of es = (if d then [] else [ev])) ).
+Proof.
+  intros s l s' H. destruct l; cbn [System.step] in H.
+  - unfold System.api_start in H. destruct (lookup tid (s_thr s)); [discriminate|].
+    destruct op; unfold start_enqueue in H; inv_step H; (eexists; split; [log_ext|left; solve_nosub]).
+  - unfold System.api_act in H. inv_step H; (eexists; split; [log_ext|]);
+      first [ left; solve_nosub; fail
+            | right; left; do 3 eexists; repeat split; eauto ].
+  - unfold System.mon_recv_step in H. inv_step H; rewrite (mon_take_log stack verify p);
+      (eexists; split; [log_ext|left; solve_nosub]).
+  - unfold System.mon_act_step in H. inv_step H; subst; (eexists; split; [log_ext|]);
+      first [ left; solve_nosub; fail
+            | right; right; do 3 eexists; exists true; (split; [reflexivity|split; reflexivity]); fail
+            | right; right; do 3 eexists; exists false; (split; [reflexivity|split; reflexivity]) ].
+  - unfold System.cb_take_step in H. inv_step H; (eexists; split; [log_ext|left; solve_nosub]).
+  - unfold cb_return_step in H. inv_step H. eexists; split; [log_ext|left; solve_nosub].
+  - unfold cb_ack_step in H. inv_step H. eexists; split; [log_ext|left; solve_nosub].
+  - destruct (s_main s); [discriminate|]. inversion H. eexists. split; [reflexivity|left; split; reflexivity].
+  - unfold cancel_call in H. inv_step H; (eexists; split; [log_ext|left; solve_nosub]).
+Qed.
+
+Lemma incr_from_app_inv : forall (a b : list cb_event) lo,
+  incr_from lo (a ++ b) -> incr_from lo a /\ incr_from (last_announced lo a) b.
+Proof.
+  induction a as [|e a IH]; intros b lo H; [split; [exact I|exact H]|].
+  destruct e; cbn in *; try (apply IH; assumption).
+  destruct H as [H1 H2]. destruct (IH b serial H2). auto.
+Qed.
+
+Definition inv_wf (s : sys) : Prop :=
+  Forall ev_wf (enq_of (s_log s)) /\ incr_from 0 (enq_of (s_log s)) /\
+  last_announced 0 (enq_of (s_log s)) <= last_announced 0 (submits_of (mon_hist (s_log s))).
+
+Lemma inv_wf_step : forall c0 st0 log0 s l s',
+  submits_of (mon_hist log0) = [] ->
+  inv_ref stack verify p (0, c0) st0 log0 s -> thr_ok (s_thr s) -> inv_wf s ->
+  step s l = Some s' -> inv_wf s'.
+Proof.
+  intros c0 st0 log0 s l s' H0 R T [W1 [W2 W3]] H.
+  destruct (step_es s l s' H) as [es [L [[E1 E2]|[[tid [t [ev [Hl [Hpc [E1 E2]]]]]]|[st [ev [rest_p [d [Em [E1 E2]]]]]]]]]];
+    unfold inv_wf; rewrite L, enq_of_app, mon_hist_app, submits_of_app.
+  - (* nothing for the queue *)
+    rewrite E1, E2, !app_nil_r. auto.
+  - (* an API goroutine enqueues a registration / unregistration *)
+    rewrite E1, E2, app_nil_r. pose proof (T tid t ev Hl Hpc) as Hok.
+    repeat split.
+    + apply Forall_app. split; [exact W1|]. constructor; [|constructor]. destruct ev; try exact I. destruct Hok.
+    + apply incr_from_app; [exact W2|]. destruct ev; try exact I. destruct Hok.
+    + rewrite last_announced_app. destruct ev; try exact W3. destruct Hok.
+  - (* the monitor submits ev (d: dropped) *)
+    rewrite E1. cbn [submits_of flat_map app].
+    (* ev sits in the pure trace right after what has been done so far *)
+    destruct R as [rest [Rl Rm]]. rewrite Em in Rm. destruct Rm as [Rt _].
+    assert (Hs : submits_of (mon_hist (s_log s)) = submits_of (mon_hist rest)).
+    { rewrite Rl, mon_hist_app, submits_of_app, H0. reflexivity. }
+    destruct (submitted_events_wf_l stack verify p (recvs rest) (0, c0) st0) as [F1 [F2 _]].
+    unfold MonitorProofs.trace in F1, F2. fold (trace (0, c0) st0 (recvs rest)) in F1, F2.
+    rewrite <- Rt, submits_of_app in F1, F2. cbn [submits_of flat_map app] in F1, F2.
+    fold (submits_of rest_p) in F1, F2.
+    apply Forall_app in F1. destruct F1 as [_ F1]. inversion F1 as [|? ? Fev _]; subst.
+    apply incr_from_app_inv in F2. destruct F2 as [_ F2]. cbn [fst] in F2.
+    rewrite Hs in *.
+    assert (Hk : match ev with EvNew _ _ k _ => last_announced 0 (submits_of (mon_hist rest)) < k | _ => True end).
+    { destruct ev; try exact I. cbn in F2. tauto. }
+    destruct d; rewrite E2.
+    + rewrite app_nil_r. repeat split; auto. rewrite last_announced_app. destruct ev; cbn; try exact W3. lia.
+    + repeat split.
+      * apply Forall_app. split; [exact W1|]. constructor; [exact Fev|constructor].
+      * apply incr_from_app; [exact W2|]. destruct ev; try exact I. cbn. split; [lia|exact I].
+      * rewrite !last_announced_app. destruct ev; cbn; try exact W3. lia.
+Qed.
+
+Lemma init_inv_wf : forall inits watching s0,
+  snd (sys_init stack verify p inits watching) = Ok s0 ->
+  inv_wf s0 /\ thr_ok (s_thr s0) /\ submits_of (mon_hist (s_log s0)) = [].
+Proof.
+  intros inits watching s0 H.
+  destruct (init_shape stack verify p inits watching s0 H) as [c0 [st0 [_ [_ [_ [_ [L _]]]]]]].
+  destruct (nosub_verifs (cr_verify_log (config_init stack verify p inits watching))) as [A B].
+  assert (Ht : s_thr s0 = []).
+  { unfold sys_init in H. cbn [snd] in H.
+    destruct (cr_out (config_init stack verify p inits watching)) as [[v st]| |]; try discriminate.
+    inversion H; subst. reflexivity. }
+  unfold inv_wf. rewrite L, A, B, Ht. repeat split; try constructor; cbn; try lia.
+  intros tid t ev Hl. discriminate Hl.
+Qed.
+
+(* all four invariants together, for every schedule *)
+Theorem queue_well_formed_l : forall inits watching s0 ls s,
+  snd (sys_init stack verify p inits watching) = Ok s0 -> run s0 ls = Some s ->
+  inv_wf s /\ inv_q s.
+Proof.
+  intros inits watching s0 ls s H0 Hr. split; [|eapply callback_fold_l; eauto].
+  destruct (init_shape stack verify p inits watching s0 H0) as [c0 [st0 [E _]]].
+  destruct (init_inv_wf inits watching s0 H0) as [W0 [T0 S0]].
+  pose proof (init_inv_ref stack verify p inits watching s0 c0 st0 H0 E) as R0.
+  assert (G : forall ls s1 s, inv_ref stack verify p (0, c0) st0 (s_log s0) s1 -> thr_ok (s_thr s1) -> inv_wf s1 ->
+              run s1 ls = Some s -> inv_wf s).
+  { clear ls s Hr. induction ls as [|l r IH]; intros s1 s R T W Hr; cbn in Hr.
+    - inversion Hr; subst. exact W.
+    - destruct (step s1 l) as [s2|] eqn:Es; [|discriminate].
+      eapply (IH s2 s); [| | |exact Hr].
+      + eapply inv_ref_step; eauto.
+      + eapply step_thr_ok; eauto.
+      + eapply inv_wf_step; eauto. }
+  eapply G; eauto.
+Qed.
+
+(* ---------- C06 for every schedule of the system ---------- *)
+
+Lemma sorted_above_prefix : forall a b lo, sorted_above lo (a ++ b) -> sorted_above lo a.
+Proof. induction a as [|x a IH]; cbn; intros; [exact I|]. destruct H. split; eauto. Qed.
+
+Lemma reg_once_prefix : forall h (a b : list cb_event), reg_once h (a ++ b) -> reg_once h a.
+Proof.
+  induction a as [|e a IH]; intros b H; [exact I|].
+  cbn in *. destruct (reg_of h e).
+  - unfold no_reg in *. rewrite forallb_app in H. apply andb_true_iff in H. tauto.
+  - eauto.
+Qed.
+
+(* the facts about the events taken so far and the callback history that the
+   pure lemmas need *)
+Lemma taken_facts : forall inits watching s0 ls s,
+  snd (sys_init stack verify p inits watching) = Ok s0 -> run s0 ls = Some s ->
+  Forall ev_wf (taken_of (s_log s)) /\ incr_from 0 (taken_of (s_log s)) /\
+  exists rest, cb_hist (s_log s) ++ rest = outs cb_init (taken_of (s_log s)).
+Proof.
+  intros inits watching s0 ls s H0 Hr.
+  destruct (queue_well_formed_l inits watching s0 ls s H0 Hr) as [[W1 [W2 _]] [Q1 _]].
+  destruct (callback_history_is_fold_l inits watching s0 ls s H0 Hr) as [_ Hf].
+  rewrite Q1 in W1, W2. apply Forall_app in W1. apply incr_from_app_inv in W2. tauto.
+Qed.
+
+(* OnNewConfig runs in installation order *)
+Theorem sys_callbacks_in_install_order_l : forall inits watching s0 ls s,
+  snd (sys_init stack verify p inits watching) = Ok s0 -> run s0 ls = Some s ->
+  sorted_above 0 (global_news (cb_hist (s_log s))).
+Proof.
+  intros inits watching s0 ls s H0 Hr.
+  destruct (taken_facts inits watching s0 ls s H0 Hr) as [F [I [rest Hh]]].
+  pose proof (in_install_order_l on_new on_err (taken_of (s_log s)) cb_init I F) as S.
+  unfold CbMgrProofs.outs in Hh. fold (outs cb_init (taken_of (s_log s))) in Hh.
+  unfold CbMgrProofs.outs in S. fold (outs cb_init (taken_of (s_log s))) in S.
+  rewrite <- Hh, global_news_app in S. eapply sorted_above_prefix; eauto.
+Qed.
+
+(* in every ordinary call the old config is the immediate predecessor of the new one *)
+Theorem sys_old_is_predecessor_l : forall inits watching s0 ls s,
+  snd (sys_init stack verify p inits watching) = Ok s0 -> run s0 ls = Some s ->
+  (forall h old new, In (OInv (InvUser h old (Some new) false)) (cb_hist (s_log s)) -> fst old + 1 = fst new) /\
+  (forall old new, In (OInv (InvNewGlobal old new)) (cb_hist (s_log s)) -> fst old + 1 = fst new) /\
+  (forall h old cu, ~ In (OInv (InvUser h old None cu)) (cb_hist (s_log s))).
+Proof.
+  intros inits watching s0 ls s H0 Hr.
+  destruct (taken_facts inits watching s0 ls s H0 Hr) as [F [I [rest Hh]]].
+  repeat split.
+  - intros h old new Hin. eapply (old_is_predecessor_l on_new on_err (taken_of (s_log s)) cb_init); eauto.
+    unfold CbMgrProofs.outs in *. rewrite <- Hh. apply in_or_app. left. exact Hin.
+  - intros old new Hin. eapply (global_old_is_predecessor_l on_new on_err (taken_of (s_log s)) cb_init); eauto.
+    unfold CbMgrProofs.outs in *. rewrite <- Hh. apply in_or_app. left. exact Hin.
+  - intros h old cu Hin. eapply (user_new_not_nil_l on_new on_err (taken_of (s_log s)) cb_init); eauto.
+    + apply version_inv_init.
+    + unfold CbMgrProofs.outs in *. rewrite <- Hh. apply in_or_app. left. exact Hin.
+Qed.
+
+Lemma deliveries_prefix_nil : forall h (a b : list cb_out), deliveries h (a ++ b) = [] -> deliveries h a = [].
+Proof. intros h a b H. rewrite deliveries_app in H. apply app_eq_nil in H. tauto. Qed.
+
+(* never stale: the serials delivered to a handle strictly increase and exceed
+   the serial it registered with; nothing reaches a handle whose registration has
+   not been processed.  reg_once is the API's guarantee that a handle is
+   registered once (each RegisterCallback makes a fresh handle: System.api_start
+   refuses a used one); its propagation to the queue is not mechanised. *)
+Theorem sys_never_stale_partial_l : forall inits watching s0 ls s h,
+  snd (sys_init stack verify p inits watching) = Ok s0 -> run s0 ls = Some s ->
+  reg_once h (enq_of (s_log s)) ->
+  match first_reg h (taken_of (s_log s)) with
+  | Some tok => sorted_above (tok_serial tok) (deliveries h (cb_hist (s_log s)))
+  | None => deliveries h (cb_hist (s_log s)) = []
+  end.
+Proof.
+  intros inits watching s0 ls s h H0 Hr Ho.
+  destruct (taken_facts inits watching s0 ls s H0 Hr) as [F [I [rest Hh]]].
+  destruct (queue_well_formed_l inits watching s0 ls s H0 Hr) as [_ [Q1 _]].
+  rewrite Q1 in Ho. apply reg_once_prefix in Ho.
+  pose proof (never_stale_l on_new on_err h (taken_of (s_log s)) I F Ho) as S.
+  unfold CbMgrProofs.outs in *. rewrite <- Hh in S.
+  destruct (first_reg h (taken_of (s_log s))).
+  - rewrite deliveries_app in S. eapply sorted_above_prefix; eauto.
+  - eapply deliveries_prefix_nil; eauto.
+Qed.
+
 End Proofs.
